@@ -60,4 +60,29 @@ def Memo.ok (g : Nat → Nat) : Memo → Prop
   | none => True
   | some (a, r) => r = g a
 
+/-! ### partial functions: `none` = the function raises for that argument -/
+
+/-- `CachedFcn.__call__` (after fix f118426): evaluate first; a call that raises leaves the memo as it was -/
+def callCachedP (g : Nat → Option Nat) (m : Memo) (a : Nat) : Option Nat × Memo :=
+  match m with
+  | some (a', r) => if a' = a then (some r, m) else
+      (match g a with | some v => (some v, some (a, v)) | none => (none, m))
+  | none => (match g a with | some v => (some v, some (a, v)) | none => (none, m))
+
+def runCachedP (g : Nat → Option Nat) : Memo → List Nat → List (Option Nat)
+  | _, [] => []
+  | m, a :: rest => let r := callCachedP g m a; r.1 :: runCachedP g r.2 rest
+
+def Memo.okP (g : Nat → Option Nat) : Memo → Prop
+  | none => True
+  | some (a, r) => g a = some r
+
+/-- the order of effects before the fix: the arguments are remembered before the function is evaluated, so after a
+call that raised the memo pairs the failing argument with the previous result -/
+def callCachedOld (g : Nat → Option Nat) (m : Memo) (a : Nat) : Option Nat × Memo :=
+  match m with
+  | some (a', r) => if a' = a then (some r, m) else
+      (match g a with | some v => (some v, some (a, v)) | none => (none, some (a, r)))
+  | none => (match g a with | some v => (some v, some (a, v)) | none => (none, none))
+
 end Hg
